@@ -1472,8 +1472,14 @@ func (r *FnRun) havocLoop(st *State, li *loopInfo, b *ssa.BasicBlock) {
 	// local objects allocated before the loop and never written inside it keep their contents
 	var keepLocal []string
 	for _, a := range r.loopUntouchedAllocs(li) {
-		if v, ok := st.vals[a]; ok && strings.HasPrefix(v.S, "(obj new.") {
-			keepLocal = append(keepLocal, v.S)
+		if v, ok := st.vals[a]; ok {
+			ref := v.S
+			if v.K == KSlice {
+				ref = v.Bas
+			}
+			if strings.HasPrefix(ref, "(obj new.") {
+				keepLocal = append(keepLocal, ref)
+			}
 		}
 	}
 	localKeep := func(v string) string {
@@ -1727,6 +1733,9 @@ func (r *FnRun) loopUntouchedAllocs(li *loopInfo) []ssa.Value {
 			case *ssa.ChangeType:
 				v = x.X
 			case *ssa.Convert:
+				if isBytesOfString(x) {
+					return v // []byte(s) allocates a private copy
+				}
 				v = x.X
 			case *ssa.Alloc, *ssa.MakeSlice:
 				return v
@@ -1778,6 +1787,9 @@ func (r *FnRun) loopUntouchedAllocs(li *loopInfo) []ssa.Value {
 					touched[a] = true
 				}
 			case ssa.CallInstruction:
+				if bi, ok := x.Common().Value.(*ssa.Builtin); ok && (bi.Name() == "len" || bi.Name() == "cap") {
+					continue // reads the header only
+				}
 				for _, arg := range x.Common().Args {
 					if a := derived(arg); a != nil {
 						touched[a] = true
@@ -1811,10 +1823,22 @@ func (r *FnRun) loopUntouchedAllocs(li *loopInfo) []ssa.Value {
 				if !touched[x] {
 					out = append(out, x)
 				}
+			case *ssa.Convert:
+				if isBytesOfString(x) && !touched[x] {
+					out = append(out, x)
+				}
 			}
 		}
 	}
 	return out
+}
+
+func isBytesOfString(x *ssa.Convert) bool {
+	if !isByteSlice(x.Type()) {
+		return false
+	}
+	b, ok := x.X.Type().Underlying().(*types.Basic)
+	return ok && b.Info()&types.IsString != 0
 }
 
 // assumeGlobalInvs: invariants over init-only package-level variables hold in every state.
